@@ -1,3 +1,4 @@
 -- Root of the `Stingray` library: models, drivers and property theorems (no Tie/Extracted here).
 import Stingray.Model
 import Stingray.Props.C05
+import Stingray.Props.C17
